@@ -186,6 +186,17 @@ static void hammer(const char* name, Storage& st, int nthreads, long iters, bool
                         (void)l->max_node_size();
                         l->deallocate_node(x, 24, 8);
                     }
+                    if (use_proxy && i % 4 == 0)
+                    { // a proxy that is moved (handed out of a function, stored in a session object): the moved-from
+                      // temporary dies first and must not unlock
+                        auto make = [&] {
+                            auto l = st.lock();
+                            return std::move(l); // forces the move constructor (no elision)
+                        };
+                        auto  l2 = make();
+                        void* x = l2->allocate_node(40, 8);
+                        l2->deallocate_node(x, 40, 8);
+                    }
                 }
             });
     for (auto& t : ts)
